@@ -523,8 +523,22 @@ def emit_fn(contract, verified, info):
     body, nloops = splice(body, contract, applied)
     rec['rewrites'] = applied
     rec['loops'] = nloops
+    rec['clauses'] = len(re.findall(r'//\s*\[[^\]]+\]', head)) + sum(t.count('//') * 0 for _, _, t in contract.directives)
     info['functions'].append(rec)
-    return head + '\n' + body + '\n'
+    if info.get('variant') == 'vacuity':
+        head = vacuous_head(head)
+    return '//@@BEGIN %s\n' % contract.key + head + '\n' + body + '\n//@@END %s\n' % contract.key
+
+
+def vacuous_head(head):
+    """Vacuity variant: add `ensures false` as the FIRST postcondition."""
+    m = re.search(r'^(\s*)ensures\b', head, re.M)
+    if m:
+        return head[:m.end()] + ' false, // [vacuity]\n' + head[m.end():]
+    m = re.search(r'^\s*decreases\b', head, re.M)
+    if m:
+        return head[:m.start()] + '    ensures false, // [vacuity]\n' + head[m.start():]
+    return head + '\n    ensures false, // [vacuity]'
 
 
 # --------------------------------------------------------------------------
@@ -535,7 +549,7 @@ def expand(unit, db=None, outdir=None, variant=None):
     db = db if db is not None else load_contracts()
     outdir = outdir or os.path.join(VERIF, 'work')
     os.makedirs(outdir, exist_ok=True)
-    info = {'unit': unit, 'functions': [], 'stubs': [], 'types': [], 'assumptions': [], 'includes': []}
+    info = {'unit': unit, 'variant': variant, 'functions': [], 'stubs': [], 'types': [], 'assumptions': [], 'includes': []}
     lines = []
 
     def do_file(path, depth=0):
@@ -574,53 +588,25 @@ def expand(unit, db=None, outdir=None, variant=None):
 
     do_file(os.path.join(VERIF, 'units', unit + '.rs'))
     text = '\n'.join(lines) + '\n'
-    if variant == 'vacuity':
-        text = add_false_ensures(text, info)
     out = os.path.join(outdir, unit + ('__vac' if variant == 'vacuity' else '') + '.rs')
     with open(out, 'w') as f:
         f.write(text)
-    # line map: function ranges in generated file
-    info['line_map'] = function_ranges(text, info)
+    info['path'] = out
+    info['ranges'] = marker_ranges(text)
+    info['text_lines'] = text.split('\n')
     return out, info
 
 
-def function_ranges(text, info):
-    """Map generated-file line ranges to contract keys, by locating each emitted head."""
-    ranges = []
-    db_keys = [f['fn'] for f in info['functions']]
-    m, _ = mask(text)
-    for mm in re.finditer(r'\bfn\s+([A-Za-z_][A-Za-z0-9_]*)\s*[<(]', m):
-        # body: first '{' at depth 0 after the signature
-        j = mm.end() - 1
-        depth = 0
-        n = len(m)
-        ok = False
-        while j < n:
-            c = m[j]
-            if c in '([':
-                depth += 1
-            elif c in ')]':
-                depth -= 1
-            elif c == '{' and depth == 0:
-                ok = True
-                break
-            elif c == ';' and depth == 0:
-                break
-            j += 1
-        if not ok:
-            continue
-        try:
-            e = match_close(m, j)
-        except ScanError:
-            continue
-        ranges.append((text.count('\n', 0, mm.start()) + 1, text.count('\n', 0, e) + 1, mm.group(1)))
-    return ranges
-
-
-def add_false_ensures(text, info):
-    """Vacuity variant: every verified (non external_body) exec fn with a contract gets `ensures false`."""
-    # implemented by the runner through a marker inserted at emit time
-    return text.replace('/*VAC*/', '')
+def marker_ranges(text):
+    res = []
+    start = {}
+    for i, line in enumerate(text.split('\n'), 1):
+        if line.startswith('//@@BEGIN '):
+            start[line[10:].strip()] = i
+        elif line.startswith('//@@END '):
+            k = line[8:].strip()
+            res.append((start[k], i, k))
+    return res
 
 
 def check_all_mut(typ, relpaths, info):
